@@ -240,7 +240,13 @@ Lemma hstep_refines h hop : Forall OtoInv h -> snd (oto_hstep h hop) <> Raise Ba
   o_hop_ok (map oto_view_of h) (tr_ohop hop) (tr_res (snd (oto_hstep h hop)))
            (map oto_view_of (fst (oto_hstep h hop))) = true.
 Proof.
-  intros F NB. destruct hop as [u kvs|i s|i s op|ior i s j t]; simpl in *.
+  intros F NB. destruct hop as [u kvs|i s|i s op|ior i s j t|keys v]; simpl in *.
+  5: { change pair_unhashable with kv_unhashable.
+       change (map (fun k : nat => (k, v)) keys) with (fromkeys_pairs keys v).
+       dex1; try dex1; try contra2; simpl; [apply oviews_eqb_refl|].
+       rewrite views_snoc, firstn_app_exact, skipn_app_exact, oviews_eqb_refl. simpl.
+       rewrite model_healthy by apply update_ok, empty_ok. simpl.
+       apply same_set_true. apply update_EqSet; [apply empty_ok|apply EqSet_refl]. }
   - (* new *)
     assert (Erej : existsb (fun p : pair => is_unhashable (fst p)) kvs ||
                    existsb (fun p : pair => is_unhashable (snd p)) (r_dict kvs) = new_rejects kvs).
